@@ -290,7 +290,7 @@ fn check_text(c: &TextCase, reps: usize, obs: &mut Obs) -> Verdict {
 fn strat(tier: Tier) -> BoxedStrategy<Case> {
     // 520-1500 items per side of which only a few percent are common (every p-th item, p in 17..60): a
     // shortcut that samples the inputs would see "nothing in common" on some runs only
-    let sparse = (520usize..=tier.pick(620, 1500), 17usize..60, 0usize..17, 0u8..3).prop_map(|(n, p, r, alg)| {
+    let sparse = (520usize..=tier.pick(620, 900), 17usize..60, 0usize..17, 0u8..3).prop_map(|(n, p, r, alg)| {
         let old: Vec<u32> = (0..n as u32).map(|i| 2 * i).collect();
         let new: Vec<u32> = (0..n as u32).map(|i| if (i as usize) % p == r { 2 * i } else { 2 * i + 1 }).collect();
         Case::Seq(SeqCase::full(if alg == 2 { 0 } else { alg }, old, new))
@@ -381,7 +381,7 @@ impl Prop for C20 {
     type Case = Case;
     const ID: &'static str = "C20";
     fn rule() -> String {
-        "cases = Seq(algorithm, old, new, ranges) biased to many unique items with block moves and reversals (so hash-map iteration order could matter) | Text(old, new valid UTF-8, tokenizer in {lines, words, chars}, algorithm), sizes below and above 100 tokens. Each Seq case is executed 1 + 8 times in the same thread and in 4 freshly spawned threads (every HashMap::new() and every new thread draws fresh hasher keys), and under two order-preserving injective relabellings (u64 x -> 7919x+13, zero-padded Strings), with items whose lawful Hash only sees two bits of the value, and with different element types on the two sides (old u64, new Id32: PartialEq<u64> with an unrelated Hash); all op lists must be identical; with a deadline that has already passed, 5 calls in this thread and a fresh thread must agree as well; after a diff aborted by a failing hook and two diffs that ran out of time in mid-run on the same thread the call must give the same ops again; full-range cases are also diffed as a TEXT diff (TextDiffConfig::diff_slices) over caller-defined DiffableStr tokens that compare by a key only while every occurrence has a different text. Families include sequences of 101-260/500 items with repeats and a long common head and tail, permutations of 90-400 and of 1030-1400/2600 distinct items, and 520-620/1500 items per side of which only every 17th-59th is common. two windows of ONE buffer must give the ops of the same windows of two copies. Text: str ops == [u8] ops, repeated runs identical, and a configuration object plus two String buffers that were used for an earlier diff of other texts of the same lengths (refilled in place) give the ops of a fresh diff. Non-trivial = >= 3 unique common items and >= 2 ops (Seq) / > 100 tokens (Text); distinct = distinct serialized case.".into()
+        "cases = Seq(algorithm, old, new, ranges) biased to many unique items with block moves and reversals (so hash-map iteration order could matter) | Text(old, new valid UTF-8, tokenizer in {lines, words, chars}, algorithm), sizes below and above 100 tokens. Each Seq case is executed 1 + 8 times in the same thread and in 4 freshly spawned threads (every HashMap::new() and every new thread draws fresh hasher keys), and under two order-preserving injective relabellings (u64 x -> 7919x+13, zero-padded Strings), with items whose lawful Hash only sees two bits of the value, and with different element types on the two sides (old u64, new Id32: PartialEq<u64> with an unrelated Hash); all op lists must be identical; with a deadline that has already passed, 5 calls in this thread and a fresh thread must agree as well; after a diff aborted by a failing hook and two diffs that ran out of time in mid-run on the same thread the call must give the same ops again; full-range cases are also diffed as a TEXT diff (TextDiffConfig::diff_slices) over caller-defined DiffableStr tokens that compare by a key only while every occurrence has a different text. Families include sequences of 101-260/500 items with repeats and a long common head and tail, permutations of 90-400 and of 1030-1400/2600 distinct items, and 520-620/900 items per side of which only every 17th-59th is common. two windows of ONE buffer must give the ops of the same windows of two copies. Text: str ops == [u8] ops, repeated runs identical, and a configuration object plus two String buffers that were used for an earlier diff of other texts of the same lengths (refilled in place) give the ops of a fresh diff. Non-trivial = >= 3 unique common items and >= 2 ops (Seq) / > 100 tokens (Text); distinct = distinct serialized case.".into()
     }
     fn assumptions() -> Vec<String> {
         vec![
